@@ -191,10 +191,19 @@ fn picture_bytes(limit: usize) -> impl Strategy<Value = B> {
     ]
     .prop_map(move |s| s.min(max));
     let size = prop_oneof![40 => size, 1 => (max..=many.max(max)).boxed()];
-    (size, any::<u8>(), any::<u8>(), any::<bool>()).prop_map(|(n, a, step, lookalike)| {
+    (size, any::<u8>(), any::<u8>(), 0..12u8).prop_map(|(n, a, step, head)| {
         let mut v: Vec<u8> = (0..n).map(|i| a.wrapping_add((i as u8).wrapping_mul(step | 1))).collect();
-        let l = b"\nOK\nbinary: 3\nACK [5@0] {} x\n";
-        if lookalike && n > l.len() {
+        // how the picture starts: arbitrary bytes, protocol look-alikes, or the signature of a real image
+        // format (whatever the server says the type is - a client has no business second-guessing it)
+        let l: &[u8] = match head {
+            0..=3 => b"",
+            4 | 5 => b"\nOK\nbinary: 3\nACK [5@0] {} x\n",
+            6 | 7 => b"\x89PNG\r\n\x1a\n\0\0\0\rIHDR",
+            8 | 9 => b"\xff\xd8\xff\xe0\0\x10JFIF\0",
+            10 => b"GIF89a",
+            _ => b"RIFF\x24\0\0\0WEBPVP8 ",
+        };
+        if n >= l.len() {
             v[..l.len()].copy_from_slice(l);
         }
         B(v)
@@ -203,7 +212,17 @@ fn picture_bytes(limit: usize) -> impl Strategy<Value = B> {
 
 fn source(limit: usize, embedded: bool) -> impl Strategy<Value = PicSource> {
     let mime = if embedded {
-        prop::option::of(prop_oneof![Just("image/jpeg".to_string()), Just("image/png".to_string())]).boxed()
+        prop::option::of(prop_oneof![
+            3 => Just("image/jpeg".to_string()),
+            3 => Just("image/png".to_string()),
+            1 => Just("image/gif".to_string()),
+            1 => Just("image/webp".to_string()),
+            1 => Just("IMAGE/PNG".to_string()),
+            1 => Just("image/jpg".to_string()),
+            1 => Just("application/octet-stream".to_string()),
+            1 => Just("image/x-portable-pixmap; charset=binary".to_string()),
+        ])
+        .boxed()
     } else {
         Just(None).boxed()
     };
@@ -252,10 +271,21 @@ fn strategy_plain(_tier: Tier) -> BoxedStrategy<Script> {
             let i = crate::core::pick_idx(at, gen.len() + 1);
             // issue the art request together with whatever follows it, so the other activity
             // interleaves with the chunk requests
-            let art = simgen::GenStep::Plain(Step::Issue { caller: 7, req: Req::AlbumArt("dir/song 1.mp3".into()) });
+            // the song's URI: local paths, and the URI schemes MPD plays (streams, other storages) - which
+            // song it is has no bearing on how its picture is fetched
+            const URIS: [&str; 14] = [
+                "dir/song 1.mp3", "b.flac", "http://radio.example.org:8000/stream.mp3", "https://example.org/a%20b.ogg", "file:///music/dir/c.flac",
+                "nfs://server/export/d.mp3", "smb://host/share/e.wav", "cdda:///1", "a://b", "x", "Musik/\u{e4}\u{f6}\u{fc} - Lied.opus", "dir/sub/../song.mp3",
+                "://", "dir/cover.jpg",
+            ];
+            let u1 = URIS[(seed % URIS.len() as u64) as usize];
+            let i1 = (seed % URIS.len() as u64) as usize;
+            let i2 = ((seed / 17) % URIS.len() as u64) as usize;
+            let u2 = URIS[if i2 == i1 { (i1 + 1) % URIS.len() } else { i2 }];
+            let art = simgen::GenStep::Plain(Step::Issue { caller: 7, req: Req::AlbumArt(u1.into()) });
             let mut together = vec![art];
             if two {
-                together.push(simgen::GenStep::Plain(Step::Issue { caller: 8, req: Req::AlbumArt("b.flac".into()) }));
+                together.push(simgen::GenStep::Plain(Step::Issue { caller: 8, req: Req::AlbumArt(u2.into()) }));
             }
             together.extend(gen.drain(i..));
             gen.push(simgen::GenStep::Together(together));
